@@ -195,6 +195,118 @@ theorem ok_mono : ∀ (f : Nat),
           simp only [okList, Bool.and_eq_true] at h ⊢
           exact ⟨ihN n f' hf' h.1, ihL rest f' hf' h.2⟩
 
+/-! The structural budget `Node.xmlFuel` (`Model/EncXml.lean`) is exactly what `okNode` asks for: the
+    only way `okNode n.xmlFuel n` can fail is the shape defect (an embedded document with a language
+    and no root), which no amount of fuel repairs. -/
+theorem ok_xmlFuel_of_ok : ∀ (f : Nat),
+    (∀ (n : Node), okNode f n = true → okNode n.xmlFuel n = true) ∧
+    (∀ (ns : List Node), okList f ns = true → okList (Node.xmlFuelL ns) ns = true)
+  | 0 => ⟨fun _ h => by simp [okNode] at h, fun _ h => by simp [okList] at h⟩
+  | f + 1 => by
+    obtain ⟨ihN, ihL⟩ := ok_xmlFuel_of_ok f
+    constructor
+    · intro n h
+      cases n with
+      | elt name attrs kids => simp only [okNode] at h; simp only [Node.xmlFuel, okNode]; exact ihL kids h
+      | text s => rfl
+      | cdata kids => simp only [okNode] at h; simp only [Node.xmlFuel, okNode]; exact ihL kids h
+      | tree lang cs root =>
+        cases root with
+        | none =>
+          cases lang with
+          | none => rfl
+          | some l => simp [okNode] at h
+        | some r =>
+          cases lang with
+          | none => simp only [Node.xmlFuel, okNode]
+          | some l => simp only [okNode] at h; simp only [Node.xmlFuel, okNode]; exact ihN r h
+    · intro ns h
+      cases ns with
+      | nil => rfl
+      | cons n rest =>
+        simp only [okList, Bool.and_eq_true] at h
+        simp only [Node.xmlFuelL, okList, Bool.and_eq_true]
+        exact ⟨(ok_mono _).1 n _ (Nat.le_max_left _ _) (ihN n h.1),
+               (ok_mono _).2 rest _ (Nat.le_max_right _ _) (ihL rest h.2)⟩
+
+/-- If any fuel makes `okNode` true, the structural budget does. -/
+theorem okNode_xmlFuel_of_ok {f : Nat} {n : Node} (h : okNode f n = true) : okNode n.xmlFuel n = true :=
+  (ok_xmlFuel_of_ok f).1 n h
+
+theorem okList_xmlFuelL_of_ok {f : Nat} {ns : List Node} (h : okList f ns = true) :
+    okList (Node.xmlFuelL ns) ns = true :=
+  (ok_xmlFuel_of_ok f).2 ns h
+
+/-! The shape defect on its own, without any fuel: `rootedN n` says that no embedded document in `n`
+    that has a language lacks its root. -/
+mutual
+def rootedN : Node → Bool
+  | .elt _ _ kids => rootedL kids
+  | .text _ => true
+  | .cdata kids => rootedL kids
+  | .tree none _ _ => true
+  | .tree (some _) _ none => false
+  | .tree (some _) _ (some r) => rootedN r
+def rootedL : List Node → Bool
+  | [] => true
+  | n :: rest => rootedN n && rootedL rest
+end
+
+mutual
+/-- **The structural budget suffices**: for every node without the shape defect, `okNode` holds at
+    `n.xmlFuel`. -/
+theorem okNode_xmlFuel : ∀ (n : Node), rootedN n = true → okNode n.xmlFuel n = true
+  | .elt _ _ kids, h => by
+    simp only [rootedN] at h; simp only [Node.xmlFuel, okNode]; exact okList_xmlFuelL kids h
+  | .text _, _ => rfl
+  | .cdata kids, h => by
+    simp only [rootedN] at h; simp only [Node.xmlFuel, okNode]; exact okList_xmlFuelL kids h
+  | .tree none _ none, _ => rfl
+  | .tree none _ (some _), _ => by simp only [Node.xmlFuel, okNode]
+  | .tree (some _) _ none, h => by simp [rootedN] at h
+  | .tree (some _) _ (some r), h => by
+    simp only [rootedN] at h; simp only [Node.xmlFuel, okNode]; exact okNode_xmlFuel r h
+theorem okList_xmlFuelL : ∀ (ns : List Node), rootedL ns = true → okList (Node.xmlFuelL ns) ns = true
+  | [], _ => rfl
+  | n :: rest, h => by
+    simp only [rootedL, Bool.and_eq_true] at h
+    simp only [Node.xmlFuelL, okList, Bool.and_eq_true]
+    exact ⟨(ok_mono _).1 n _ (Nat.le_max_left _ _) (okNode_xmlFuel n h.1),
+           (ok_mono _).2 rest _ (Nat.le_max_right _ _) (okList_xmlFuelL rest h.2)⟩
+end
+
+/-- `okNode` at any fuel implies the absence of the shape defect. -/
+theorem rooted_of_ok : ∀ (f : Nat),
+    (∀ (n : Node), okNode f n = true → rootedN n = true) ∧
+    (∀ (ns : List Node), okList f ns = true → rootedL ns = true)
+  | 0 => ⟨fun _ h => by simp [okNode] at h, fun _ h => by simp [okList] at h⟩
+  | f + 1 => by
+    obtain ⟨ihN, ihL⟩ := rooted_of_ok f
+    constructor
+    · intro n h
+      cases n with
+      | elt name attrs kids => simp only [okNode] at h; simp only [rootedN]; exact ihL kids h
+      | text s => rfl
+      | cdata kids => simp only [okNode] at h; simp only [rootedN]; exact ihL kids h
+      | tree lang cs root =>
+        cases lang with
+        | none => simp only [rootedN]
+        | some l =>
+          cases root with
+          | none => simp [okNode] at h
+          | some r => simp only [okNode] at h; simp only [rootedN]; exact ihN r h
+    · intro ns h
+      cases ns with
+      | nil => rfl
+      | cons n rest =>
+        simp only [okList, Bool.and_eq_true] at h
+        simp only [rootedL, Bool.and_eq_true]
+        exact ⟨ihN n h.1, ihL rest h.2⟩
+
+/-- `okNode` is "no shape defect" plus "enough fuel", and `xmlFuel` is enough. -/
+theorem exists_ok_iff_rooted (n : Node) : (∃ f, okNode f n = true) ↔ rootedN n = true :=
+  ⟨fun ⟨f, h⟩ => (rooted_of_ok f).1 n h, fun h => ⟨_, okNode_xmlFuel n h⟩⟩
+
 /-- `wbxml_tree_to_xml`: total on a tree without language (error 12) and on a tree whose root
     satisfies the shape condition. -/
 theorem treeToXml_safe (cfg : W2XCfg) (fuel : Nat) (t : Tree)
@@ -221,7 +333,7 @@ theorem wbxml2xml_anatomy (cfg : W2XCfg) (bs : Bytes) :
     (∃ c, c ≠ 0 ∧ treeOfWbxml cfg.main (bs.length + 1) cfg.lang cfg.charset bs = .error (.code c) ∧
         wbxml2xml cfg bs = .error (.code c)) ∨
     (∃ t, treeOfWbxml cfg.main (bs.length + 1) cfg.lang cfg.charset bs = .ok t ∧
-        wbxml2xml cfg bs = treeToXml cfg (2 * bs.length + 4) t) := by
+        wbxml2xml cfg bs = treeToXml cfg t.xmlFuel t) := by
   unfold wbxml2xml
   cases bs with
   | nil => exact Or.inl ⟨rfl, rfl⟩
